@@ -143,6 +143,7 @@ fn run_case(c: &Cfg, trace: bool) -> CaseResult {
                     (n("two._u._udp.local"), T_TXT),
                     (n("host.local"), T_A),
                     (n("host.local"), T_AAAA),
+                    (n("_services._dns-sd._udp.local"), T_PTR),
                 ]);
                 let from = w.log.len();
                 w.deliver(0, i, src, build(&q));
@@ -192,6 +193,9 @@ fn run_case(c: &Cfg, trace: bool) -> CaseResult {
                 m.all_records().any(|r| {
                     name_eq_ci(&r.name, &s.inst)
                         || matches!(&r.rd, RD::Ptr(t) if name_eq_ci(t, &s.inst))
+                        // the service-type enumeration names the type of a service (the two services have different types)
+                        || (name_eq_ci(&r.name, &n("_services._dns-sd._udp.local"))
+                            && matches!(&r.rd, RD::Ptr(t) if name_eq_ci(t, &s.inst[1..].to_vec())))
                 })
             };
             // announcement = unsolicited: not sent in an iteration that was handed a query
